@@ -121,3 +121,14 @@ T("ndarray.__setitem__", "fancy,q|(2,3)", lambda a, v: _setitem(a, v, ([0, 1], [
 for m, sh, kw in (("sum", (2, 3), {"axis": 0}), ("mean", (2, 3), {"axis": 0}), ("max", (2, 3), {"axis": 0}), ("cumsum", (4,), {})):
     T("ndarray." + m, f"out|{sh}", (lambda a, out, m=m, kw=kw: getattr(a, m)(out=out, **kw)), {"a": I("X", sh), "out": I("X", (3,) if sh == (2, 3) else sh, "zeros")}, inplace=("out",))
 meth("take", [{"mode": "clip"}], [(4,)], args=([-1, 2],))
+
+# ---- .dot with operands of three dimensions: NumPy's dot is not matmul there ------------------------------------------------
+T("ndarray.dot", "3d.3d|(2,3,4)(2,4,5)", lambda a, b: a.dot(b), {"a": I("X", (2, 3, 4)), "b": I("Y", (2, 4, 5))}, cls="other")
+T("ndarray.dot", "2d.3d|(3,4)(2,4,5)", lambda a, b: a.dot(b), {"a": I("X", (3, 4)), "b": I("Y", (2, 4, 5))}, cls="other")
+T("ndarray.dot", "3d.1d|(2,3,4)(4,)", lambda a, b: a.dot(b), {"a": I("X", (2, 3, 4)), "b": I("Y", (4,))}, cls="other")
+T("ndarray.dot", "3d.3d,out|(2,3,4)(2,4,5)", lambda a, b, out: a.dot(b, out=out), {"a": I("X", (2, 3, 4)), "b": I("Y", (2, 4, 5)), "out": I("X", (2, 3, 2, 5), "zeros")}, cls="other", inplace=("out",))
+T("np.dot", "3d.3d|(2,3,4)(2,4,5)", lambda a, b: np.dot(a, b), {"a": I("X", (2, 3, 4)), "b": I("Y", (2, 4, 5))}, cls="other")
+T("np.dot", "bare.3d|(3,4)(2,4,5)", lambda a, b: np.dot(a, b), {"a": I(None, (3, 4)), "b": I("Y", (2, 4, 5))}, cls="other")
+T("np.matmul", "3d.3d|(2,3,4)(2,4,5)", lambda a, b: np.matmul(a, b), {"a": I("X", (2, 3, 4)), "b": I("Y", (2, 4, 5))}, cls="other")
+T("np.inner", "2d.3d|(3,4)(2,5,4)", lambda a, b: np.inner(a, b), {"a": I("X", (3, 4)), "b": I("Y", (2, 5, 4))}, cls="other")
+T("np.tensordot", "axes1|(2,3,4)(4,5)", lambda a, b: np.tensordot(a, b, axes=1), {"a": I("X", (2, 3, 4)), "b": I("Y", (4, 5))}, cls="other")
